@@ -14,9 +14,7 @@ class SearchLeg(T.TravLeg):
     quick_n = 200
     thorough_n = 5000
 
-    def oracle(self, case, obs):
-        if obs is None:
-            return []
+    def phase_oracle(self, case, obs):
         if not obs["unchanged"]:
             return ["a search changed the graph"]
         snap = obs["snap"]
